@@ -19,7 +19,7 @@
      `isNaN (-x) = isNaN x`, `isNaN |x| = isNaN x` and "`c / y` is a number for a finite non-zero `c` and a number `y`".
 -/
 import RosuModel.Model.FloatInst
-namespace Rosu.FM
+namespace Rosu.FMO
 open Rosu Float.Model
 open Float.Model.UnpackedFloat (Sign)
 
@@ -664,4 +664,4 @@ theorem isNaN_div_float32 (c y : Float32) (hc : isFiniteNonzero c.toModel.unpack
     Scalar.isNaN (c / y) = false := by
   rw [div_float32, pack_isNaN_float32]; exact udiv_not_nan _ _ _ hc hy
 
-end Rosu.FM
+end Rosu.FMO
